@@ -11,7 +11,7 @@ import sys
 import tempfile
 
 from . import seeds
-from .driver import Check, VERIF
+from .driver import Check, VERIF, child_pythonpath
 from .plan import wchoice
 
 BATCH = 16
@@ -69,7 +69,7 @@ def run_child(configs, mode):
             json.dump({"mode": mode, "configs": configs}, f)
         env = dict(os.environ)
         env["PYTHONHASHSEED"] = os.environ.get("VERIF_HASHSEED", "0")
-        env["PYTHONPATH"] = VERIF
+        env["PYTHONPATH"] = child_pythonpath()
         p = subprocess.run([sys.executable, os.path.join(VERIF, "simx", "repro_child.py"), path],
                            capture_output=True, text=True, timeout=900, env=env, cwd=VERIF)
     finally:
